@@ -186,6 +186,9 @@ fn script(c: &Case, w: &mut World) -> Vec<Mark> {
                     w.poisoned |= r == Err(libc::EBADF);
                 }
             }
+            if w.poisoned {
+                return m; // any further use of the handle would close its descriptor a second time
+            }
             let _ = w.write(ino, h, &b"Q"[..size.min(1)], 0, acc);
             if !trunc {
                 m.push(Mark { idx: w.last(), kind: Kind::Probe, op: "write" });
@@ -251,6 +254,9 @@ fn script(c: &Case, w: &mut World) -> Vec<Mark> {
                 if opened {
                     m.push(Mark { idx: w.last(), kind: Kind::Alive, op: "fallocate" });
                     w.poisoned |= r == Err(libc::EBADF);
+                }
+                if w.poisoned {
+                    return m;
                 }
                 let _ = w.write(ino, h, &b"Q"[..size.min(1)], 0, libc::O_RDWR);
                 m.push(Mark { idx: w.last(), kind: Kind::Probe, op: "fallocate" });
